@@ -25,7 +25,7 @@ def member_bytes(m):
 
 def describe(space, case):
     ms = case["members"]
-    return "C19 %s mode=%s%s filters=%s members=%d first=%s" % (space, case["mode"], case.get("q", ""), case.get("filters", []), len(ms), {k: v for k, v in (ms[0] if ms else {}).items()})
+    return "C19 %s mode=%s%s spelling=%d filters=%s members=%d first=%s" % (space, case["mode"], case.get("q", ""), case.get("spell", 0), case.get("filters", []), len(ms), {k: v for k, v in (ms[0] if ms else {}).items()})
 
 
 def run_case(runner, space, case):
@@ -48,7 +48,10 @@ def run_case(runner, space, case):
     quiet = 0 if q == "" else (2 if q == "q" else int(q[1]))
     r = listrender.Renderer(cli.NOW, localtime=time.localtime if london else time.gmtime)
     want = r.render(mode, sel, mtime, quiet)
-    argmode = mode[0] + q + ("v" if len(mode) > 1 else "")
+    # spellings of the same command: quiet before or after the verbose modifier, with and without the leading '-'
+    spell = case.get("spell", 0)
+    v = "v" if len(mode) > 1 else ""
+    argmode = ("-" if spell & 2 else "") + mode[0] + (v + q if spell & 1 else q + v)
     res = runner.run(arc, [argmode, "../archive.lzh"] + filters, archive_mtime=mtime, want_trees=False)
     viol = []
     if res.stdout != want:
